@@ -42,10 +42,12 @@ class Stats:
         self.cexs = []
         self.notes = []
         self.extra = dict(programs=0, untranslatable=0, python_reader_raised=0, functions_by_kind={})
+        self.smt = []
+        self.smt_keep = symx.default_smt_keep()
 
     def result(self):
         r = dict(self.d)
-        r.update(hashes=sorted(self.hashes), samples=self.samples, cexs=self.cexs, notes=self.notes[:10], reach={"end": self.d["reached"]}, extra=self.extra)
+        r.update(hashes=sorted(self.hashes), samples=self.samples, cexs=self.cexs, notes=self.notes[:10], reach={"end": self.d["reached"]}, extra=self.extra, smt=self.smt)
         return r
 
 
@@ -81,6 +83,13 @@ class FSolver:
         r = self.check(neg)
         if r == "unsat":
             st.d["discharged"] += 1
+            if len(st.smt) < st.smt_keep:
+                self.s.push()
+                self.s.add(neg)
+                try:
+                    st.smt.append(self.s.to_smt2())
+                finally:
+                    self.s.pop()
             if len(st.samples) < 2:
                 st.samples.append({"function": self.fname, "obligation": what, "negated_goal": symx._short(neg, 300), "verdict": "unsat (holds for all indices and header words under WF)"})
             return True
